@@ -44,6 +44,12 @@ func NewRequestOptIn(uuid flows.ActionUUID, optIn *assets.OptInReference) *Reque
 
 // Execute creates the optin events
 func (a *RequestOptInAction) Execute(run flows.Run, step flows.Step, logModifier flows.ModifierCallback, logEvent flows.EventCallback) error {
+	// a session can be started without a contact, in which case there is nobody to ask
+	if run.Contact() == nil {
+		logEvent(events.NewErrorf("can't request an optin in a session without a contact"))
+		return nil
+	}
+
 	optIn := run.Session().Assets().OptIns().Get(a.OptIn.UUID)
 	destinations := run.Contact().ResolveDestinations(false)
 
